@@ -5,6 +5,7 @@ import (
 	"errors"
 	"fmt"
 	"net"
+	"os"
 	"strconv"
 	"sync"
 	"sync/atomic"
@@ -364,7 +365,12 @@ func (d *TCPDialer) tryDial(
 	defer cancelCtx()
 	conn, err := dialer.DialContext(ctx, network, addr)
 	if err != nil {
-		if ctx.Err() == context.DeadlineExceeded {
+		// The timer behind ctx, the connect deadline of the poller and net's own
+		// "time remaining" check all refer to the same instant; any of the latter
+		// two may win, in which case DialContext reports an i/o timeout while
+		// ctx.Err() is still nil.
+		if ctx.Err() == context.DeadlineExceeded ||
+			errors.Is(err, os.ErrDeadlineExceeded) || errors.Is(err, context.DeadlineExceeded) {
 			return nil, wrapDialWithUpstream(ErrDialTimeout, addr)
 		}
 		return nil, wrapDialWithUpstream(err, addr)
